@@ -150,3 +150,11 @@ pub fn __vec_drain_front(v: &mut Vec<u64>, d: usize)
 pub fn __last_is_zero(v: &Vec<u8>) -> (r: bool)
     ensures r == (v@.len() > 0 && v@[v@.len() - 1] == 0)
 { unimplemented!() }
+
+//@ assume std::i32/i64/i128::unsigned_abs : std documentation: the absolute value as the unsigned type (MIN maps to 2^(BITS-1))
+pub assume_specification[ i32::unsigned_abs ](x: i32) -> (r: u32)
+    ensures r as int == (if x < 0 { -(x as int) } else { x as int });
+pub assume_specification[ i64::unsigned_abs ](x: i64) -> (r: u64)
+    ensures r as int == (if x < 0 { -(x as int) } else { x as int });
+pub assume_specification[ i128::unsigned_abs ](x: i128) -> (r: u128)
+    ensures r as int == (if x < 0 { -(x as int) } else { x as int });
